@@ -491,8 +491,26 @@ class Summary:
         for t, conds, node in r.calls:
             self.calls.append((t[1], _cond_key(conds, lvnum, cvnum), norm(t, lvnum, cvnum), getattr(node, 'lineno', 0)))
         self.finals = {}
+        # what a mutated parameter holds when the function returns: merged over the return statements (all outside loops) and the end
+        # of the body, like the returned value itself
+        merged_env = dict(r.env)
+        rets = getattr(r, 'return_envs', [])
+        if rets and not any(isinstance(c, tuple) and c and c[0] == 'inloop' for conds_, _ in rets for c, _p in conds_):
+            for p in f.params:
+                val = r.env.get(p) if r.falls_through else None
+                for conds_, snap in reversed(rets):
+                    v = snap.get(p)
+                    cond = None
+                    for c, pol in conds_:
+                        cc = c if pol else mknot(c)
+                        cond = cc if cond is None else mkbool('And', cond, cc)
+                    if val is None or cond is None:
+                        val = v
+                    elif v != val:
+                        val = mkphi(cond, v, val)
+                merged_env[p] = val
         for p in f.params:
-            v = r.env.get(p)
+            v = merged_env.get(p)
             if v is not None and v != ('param', p):
                 # only mutation matters: a rebound parameter that is never returned is invisible to the caller
                 if _rooted_in_param(v, p):
